@@ -259,6 +259,24 @@ def x_seq(ctx, case):
     ctx.check(names.count("startTestRun") == 1 and names.count("stopTestRun") == 1
               and names[0] == "startTestRun" and names[-1] == "stopTestRun", "ext.run-bracket",
               lambda: {"names": names})
+    # ---- the same replay into results of the older protocols (what StreamToExtendedDecorator wraps its target in
+    #      degrades the outcomes they lack): still one bracket per test, in order, with the degraded outcome
+    for flavour, cls, degrade in (("py26", recorders.Py26Recorder, {"addSkip": "addSuccess", "addExpectedFailure": "addSuccess",
+                                                                     "addUnexpectedSuccess": "addFailure"}),
+                                  ("py27", recorders.Py27Recorder, {})):
+        log2 = recorders.Log()
+        d2 = testtools.StreamToExtendedDecorator(cls(log2))
+        d2.startTestRun()
+        _feed(ctx, d2, events, "StreamToExtendedDecorator over a %s result" % flavour)
+        d2.stopTestRun()
+        got2 = [(e.test, e.name) for e in log2.events if e.name in recorders.OUTCOMES]
+        started = [e.test for e in log2.events if e.name == "startTest"]
+        stopped = [e.test for e in log2.events if e.name == "stopTest"]
+        want2 = [(r["id"], degrade.get(status_map[r["status"]], status_map[r["status"]])) for r in fin2 + rest2]
+        ctx.check(sorted(map(repr, got2)) == sorted(map(repr, want2)) and got2[:len(fin2)] == want2[:len(fin2)]
+                  and sorted(map(repr, started)) == sorted(map(repr, stopped)) == sorted(repr(r["id"]) for r in fin2 + rest2),
+                  "ext.replay-matches-model",
+                  lambda: {"target": flavour, "outcomes": got2, "want": want2, "started": started, "stopped": stopped, **detail()})
     return any(e.get("id") is not None for e in events)
 
 
